@@ -583,7 +583,7 @@ pub fn monitor(tier: Tier) -> Monitor {
         ],
         families: vec![
             Family { name: "raw_ctor_grid", count: 36 * 3 * tier.pick(4, 40), priority: true, enumerated: false, run: fam_raw_grid },
-            Family { name: "hostile", count: tier.pick(150_000, 6_000_000), priority: false, enumerated: false, run: fam_hostile },
+            Family { name: "hostile", count: tier.pick(1_000_000, 40_000_000), priority: false, enumerated: false, run: fam_hostile },
         ],
         label,
         floors,
